@@ -3,7 +3,7 @@
 (* Trace specification of the data module (see TraceEco.tla for the        *)
 (* two-layer scheme).  Lines carry the projected data state under "ds".    *)
 (***************************************************************************)
-EXTENDS Data, Json, TLCExt, Known
+EXTENDS Data, Json, TLCExt
 
 TLog == ndJsonDeserialize("trace.ndjson")
 
@@ -77,6 +77,8 @@ T_C09_RoundTrip ==
        \/ ("public_resolver_genesis" \in KnownKeys /\ KF_public_resolver_genesis)
     /\ ob.reexport_equal
     /\ ob.inv_after_import = ""
+T_C09_ValidatorModel ==
+  (dev.type = "ExportImport" /\ ob.export_panic = "") => ((ob.validate_data = "") <=> DataGenesisValid(dst))
 T_C09_SameState == [][dev'.type = "ExportImport" => dst' = dst]_tvars
 T_C10_SameDigests ==
   dev.type = "Replica" =>
